@@ -193,6 +193,13 @@ def check_ops(case, ctx):
                     unit_clause(ctx, r, x)
                 else:
                     ctx.le("random matrices are proper rotations", max(rq.so3_defect(m) for m in x.reshape(-1, 3, 3)), 1e-12, route=r)
+    from ahrs.common import orientation as O_
+    for rr, fn in (("Quaternion(random=True)", lambda: np.asarray(ahrs.Quaternion().random(), float)), ("Quaternion(random=True)", lambda: np.asarray(O_.q_random(), float))):
+        out = call(fn)
+        if ctx.returned(out, clause="no-exception[random() / q_random()]", route=rr):
+            x = as_real_array(ctx, out.value, (4,), route=rr, what="quaternion")
+            if x is not None:
+                unit_clause(ctx, rr, x)
     out = call(lambda: np.asarray(ahrs.Quaternion(random=True)))
     if ctx.returned(out, route="Quaternion(random=True)"):
         x = as_real_array(ctx, out.value, (4,), route="Quaternion(random=True)", what="quaternion")
@@ -243,6 +250,19 @@ def check_ops(case, ctx):
                 worst = max(rq.qang(stored[i], case.p["centre"]) for i in range(len(stored)))
                 ctx.le("average of a cluster lies within the cluster", rq.qang(a, case.p["centre"]), 1.5 * worst + 1e-9,
                        {"avg": a, "centre": case.p["centre"], "cluster_radius": worst}, route=r)
+    # degenerate sizes: one row (with and without a weight), a span selecting one row, two rows
+    for lab, fn in (("N=1", lambda: ahrs.QuaternionArray(Q[:1].copy()).average()),
+                    ("N=1, weight", lambda: ahrs.QuaternionArray(Q[:1].copy()).average(weights=np.array([float(case.p["weights"][0])]))),
+                    ("span of one row, weight", lambda: ahrs.QuaternionArray(Q.copy()).average(span=(1, 2), weights=np.array([0.37]))),
+                    ("N=2, weights", lambda: ahrs.QuaternionArray(Q[:2].copy()).average(weights=case.p["weights"][:2].copy()))):
+        out = call(fn)
+        if ctx.returned(out, clause="no-exception[%s]" % lab, route=r):
+            a = as_real_array(ctx, out.value, (4,), route=r, what="average")
+            if a is not None:
+                unit_clause(ctx, r, a)
+                if lab != "N=2, weights":
+                    row = stored[0] if lab.startswith("N=1") else stored[1]
+                    ctx.le("average of a single row is that row (up to sign)", min(np.abs(a - row).max(), np.abs(a + row).max()), 1e-12, {"case": lab, "avg": a, "row": row}, route=r)
     out = call(lambda: ahrs.QuaternionArray(Q.copy()).average(span=(0, max(2, len(Q) // 2))))
     if ctx.returned(out, route=r):
         a = as_real_array(ctx, out.value, (4,), route=r, what="average")
